@@ -191,6 +191,38 @@ theorem locksSkip_locked (take : Bool) (l : List Nat) (k : Key) : (locksSkip tak
   split
   · simp [locksSkip_locked]
   · simp [locksSkip_locked]
+/-! ### … nor `waited` (holder side) -/
+@[simp] theorem free_waited (k : Key) (rid : Nat) : (k.free rid).waited = k.waited := by unfold Key.free; split <;> rfl
+@[simp] theorem unrefOnly_waited (k : Key) (rid : Nat) : (k.unrefOnly rid).waited = k.waited := rfl
+@[simp] theorem unref_waited (k : Key) (rid : Nat) : (k.unref rid).waited = k.waited := by unfold Key.unref; simp only []; split <;> simp
+theorem foldl_unref_waited (l : List Nat) (k : Key) : (l.foldl (fun k x => k.unref x) k).waited = k.waited := by
+  induction l generalizing k with
+  | nil => rfl
+  | cons a as ih => simp only [List.foldl_cons]; rw [ih]; simp
+theorem foldl_unrefW_waited (l : List WEnt) (k : Key) : (l.foldl (fun k x => k.unref x.rid) k).waited = k.waited := by
+  induction l generalizing k with
+  | nil => rfl
+  | cons a as ih => simp only [List.foldl_cons]; rw [ih]; simp
+@[simp] theorem locksPush_waited (k : Key) (rid : Nat) : (k.locksPush rid).waited = k.waited := by
+  unfold Key.locksPush; simp only []
+  split
+  · rfl
+  · split
+    · rfl
+    · split <;> simp [foldl_unref_waited]
+theorem locksSkip_waited (take : Bool) (l : List Nat) (k : Key) : (locksSkip take l k).1.waited = k.waited := by
+  induction l generalizing k with
+  | nil => rfl
+  | cons x rest ih =>
+    unfold locksSkip
+    split
+    · split <;> rfl
+    · rw [ih]; simp
+@[simp] theorem removeLock_waited (k : Key) (rid : Nat) : (k.removeLock rid).waited = k.waited := by
+  unfold Key.removeLock; simp only []
+  split
+  · simp [locksSkip_waited]
+  · simp [locksSkip_waited]
 @[simp] theorem waitPush_locked (k : Key) (e : WEnt) : (k.waitPush e).locked = k.locked := by
   unfold Key.waitPush; simp only []
   split
@@ -316,6 +348,14 @@ theorem removeIfZero_of_nonzero (w : W) (h : w.k.refCount ≠ 0) : w.removeIfZer
     · rfl
     · simp only []; split <;> rfl
 
+@[simp] theorem procData_waited (w : W) (ct : Slock.Value.CmdType) (c : Cmd) (f : Option Bytes) (rid : Nat) :
+    (w.procData ct c f rid).k.waited = w.k.waited := by
+  unfold W.procData; split
+  · rfl
+  · simp only []; split
+    · rfl
+    · simp only []; split <;> rfl
+
 /-- **the value operation**: the cell after `procData` is `processFrame` of the cell before, with the context of the call site -/
 theorem procData_spec (w : W) (ct : Slock.Value.CmdType) (c : Cmd) (f : Bytes) (rid : Nat) (cell' : Option Cell)
     (h : Slock.Value.processFrame (frameCtx w.k ct c) w.k.cell f = .ok cell') :
@@ -349,5 +389,14 @@ theorem aofLockData_vstrip (k : Key) (b : Bool) (rid : Nat) : vstrip (aofLockDat
   · split
     · split <;> rfl
     · rfl
+
+@[simp] theorem aofLockData_waited (k : Key) (b : Bool) (rid : Nat) : (aofLockData k b rid).1.waited = k.waited := by
+  unfold aofLockData
+  split
+  · rfl
+  · split
+    · split <;> rfl
+    · rfl
+@[simp] theorem removeIfZero_waited (w : W) : w.removeIfZero.k.waited = w.k.waited := by unfold W.removeIfZero; split <;> rfl
 
 end Slock.Engine2
